@@ -63,6 +63,7 @@ type Verifier struct {
 	curCtr        *Contract
 	curReplay     []replayVar
 	pkgInitDone   map[string]bool
+	rangeMap0     *MapObj
 	allocMark     int64
 	curWrites     map[string]bool
 }
@@ -112,6 +113,9 @@ func clauseInProp(ctr *Contract, cl *Clause, prop string) bool {
 func (v *Verifier) emit(fr *Frame, st *State, kind, clause string, goal *Term, what string) {
 	if !v.verifying {
 		return
+	}
+	if os.Getenv("GOVC_DEBUG") != "" && strings.Contains(clause, os.Getenv("GOVC_DEBUG")) {
+		fmt.Fprintf(os.Stderr, "emit %s raw goal: %s\n   normalised: %s\n   trace %v\n", clause, goal, st.norm(goal), st.trace)
 	}
 	goal = st.norm(goal)
 	// known finding on this obligation: prove it outside the recorded witness class, and keep the
